@@ -3,7 +3,6 @@ From Coq Require Import List NArith Bool Lia ZifyN ZifyNat ZifyBool PeanoNat.
 From YK Require Import Events.Ring Events.RingSpec Events.RingLemmas.
 Import ListNotations.
 Open Scope N_scope.
-Set Default Timeout 60.
 
 (* [Inv r n]: r is a ring into which n events (payloads 0..n-1, in this order) have been added. *)
 Record Inv (r : ring) (n : N) : Prop := mkInv {
